@@ -246,6 +246,15 @@ func (c *CCtx) Compile(x Expr) CVal {
 		if n.Exists {
 			return CVal{T: fmt.Sprintf("(exists ((%s Int)) (and (<= %s %s) (< %s %s) %s))", n.Var, lo.T, n.Var, n.Var, hi.T, body.T), Sort: "Bool"}
 		}
+		// forall k in [a,b) :: forall j in [c,d) :: body  becomes one quantifier over (k, j): the solvers instantiate nested
+		// quantifiers poorly
+		if in, ok := n.Body.(Forall); ok && !in.Exists && in.Sort == "" && !in.Expand && in.Trig == nil && in.Var != n.Var {
+			pre := fmt.Sprintf("(forall ((%s Int)) (=> (and ", in.Var)
+			if strings.HasPrefix(body.T, pre) {
+				rest := body.T[len(pre):] // "(<= lo j) (< j hi)) BODY))"
+				return CVal{T: fmt.Sprintf("(forall ((%s Int) (%s Int)) (=> (and (<= %s %s) (< %s %s) %s", n.Var, in.Var, lo.T, n.Var, n.Var, hi.T, rest), Sort: "Bool"}
+			}
+		}
 		return CVal{T: fmt.Sprintf("(forall ((%s Int)) (=> (and (<= %s %s) (< %s %s)) %s))", n.Var, lo.T, n.Var, n.Var, hi.T, body.T), Sort: "Bool"}
 	case Ite:
 		cd, a, b := c.Compile(n.C), c.Compile(n.A), c.Compile(n.B)
